@@ -182,6 +182,7 @@ def main():
                     c["stmts"].insert(ck.rng.randrange(len(c["stmts"]) + 1), ["CDecay", cm])
             c["text"] = decgen.render(c["stmts"])
     impl = vlib.run_impl("c03.py", cases)
+    decpost.front_end_check(ck, "C03fe", cases)
     pre = "Definition sc_of (n : string) : option bool := pd_get n (t_selfconj gen_tables)."
     terms = [f"vpost (parse_post cc sc_of {'true' if c['include_cc'] else 'false'} {decpost.coq_stmts(c['stmts'])})" for c in cases]
     model = vlib.run_model("C03", ["Lib.PyDict", "Decay.Conj", "Decay.GenTables", "Dec.Tables", "Dec.Syntax", "Dec.Post"],
